@@ -16,9 +16,8 @@
  * The harness is the application: it owns one reference per window it created (plus one per `k`), and it follows
  * these rules, which the model's interpreter mirrors exactly (a refused action is logged as x<a><id>):
  *   - every action needs a live target;
- *   - u: needs an owned reference, a target other than the root, no children (tear down leaf-first: the parent's
- *        destroy loop is property C08's business), and a target that is closed or still attached to the root;
- *   - c: refused while a restack request of the target is queued (raise/lower since the last flush; C08);
+ *   - u: needs an owned reference, a target other than the root, and no children (tear down leaf-first: a parent's
+ *        destruction drops one reference of every child, which is the life engine's business, C08);
  *   - r R l L f: need a target attached to the root (the library abort()s on an orphaned subtree).
  * Observation: the event log of the operation, then `|`, then the dump of every live window through public queries.
  *   K<w>.<i>/<e><+|->:<type>,<mod>                 key handler i of window w ran entry e and claimed(+)/declined(-)
@@ -42,7 +41,7 @@ typedef struct { int win, idx, kind, n, count; Entry e[MAXE]; } Binding;
 
 static TickitTerm *tt;
 static TickitWindow *W[MAXW];
-static int nW, alive[MAXW], owned[MAXW], pending[MAXW], nbind[MAXW][2];
+static int nW, alive[MAXW], owned[MAXW], nbind[MAXW][2];
 static Binding *B[MAXB];
 static int nB;
 static int first_item;
@@ -98,10 +97,7 @@ static void do_action(Action a)
   TickitWindow *w = ok ? W[id] : NULL;
   if(ok) switch(a.a) {
     case 'u':
-      ok = owned[id] > 0 && id != 0 && tickit_window_children(w) == 0 && (tickit_window_parent(w) == NULL || attached(id));
-      break;
-    case 'c':
-      ok = !pending[id];
+      ok = owned[id] > 0 && id != 0 && tickit_window_children(w) == 0;
       break;
     case 'r': case 'R': case 'l': case 'L': case 'f':
       ok = attached(id);
@@ -116,10 +112,10 @@ static void do_action(Action a)
     case 'k': owned[id]++; tickit_window_ref(w); break;
     case 'h': tickit_window_hide(w); break;
     case 's': tickit_window_show(w); break;
-    case 'r': if(id != 0) pending[id] = 1; tickit_window_raise(w); break;
-    case 'R': if(id != 0) pending[id] = 1; tickit_window_raise_to_front(w); break;
-    case 'l': if(id != 0) pending[id] = 1; tickit_window_lower(w); break;
-    case 'L': if(id != 0) pending[id] = 1; tickit_window_lower_to_back(w); break;
+    case 'r': tickit_window_raise(w); break;
+    case 'R': tickit_window_raise_to_front(w); break;
+    case 'l': tickit_window_lower(w); break;
+    case 'L': tickit_window_lower_to_back(w); break;
     case 'f': tickit_window_take_focus(w); break;
     case 't': tickit_window_set_steal_input(w, true); break;
     case 'T': tickit_window_set_steal_input(w, false); break;
@@ -182,12 +178,8 @@ static void teardown(void)
 {
   if(!tt) return;
   first_item = 1;
-  /* queued restack requests are not released by the root's destruction (a leak that is C08's business): apply them */
-  if(nW > 0 && alive[0]) tickit_window_flush(W[0]);
   for(int i = nW - 1; i >= 0; i--) {
     if(!alive[i]) continue;
-    /* a member of an orphaned subtree must be detached before it may be destroyed (C08: _get_root abort) */
-    if(i != 0 && tickit_window_parent(W[i]) && !attached(i)) tickit_window_close(W[i]);
     while(alive[i] && owned[i] > 0) { owned[i]--; tickit_window_unref(W[i]); }
   }
   tickit_term_unref(tt);
@@ -233,7 +225,7 @@ static void engine_op(int argc, char **argv)
     first_item = 1;
     tt = tickit_term_build(&(struct TickitTermBuilder){ .termtype = "xterm", .output_func = outf });
     tickit_term_set_size(tt, atoi(argv[1]), atoi(argv[2]));
-    memset(alive, 0, sizeof alive); memset(owned, 0, sizeof owned); memset(pending, 0, sizeof pending); memset(nbind, 0, sizeof nbind);
+    memset(alive, 0, sizeof alive); memset(owned, 0, sizeof owned); memset(nbind, 0, sizeof nbind);
     W[0] = tickit_window_new_root(tt);
     tickit_term_bind_event(tt, TICKIT_TERM_ON_KEY, 0, on_term_unhandled, NULL);
     tickit_term_bind_event(tt, TICKIT_TERM_ON_MOUSE, 0, on_term_unhandled, NULL);
@@ -259,7 +251,7 @@ static void engine_op(int argc, char **argv)
     if(f & 8) flags |= TICKIT_WINDOW_STEAL_INPUT;
     int id = nW++;
     W[id] = tickit_window_new(W[p], r, flags);
-    alive[id] = 1; owned[id] = 1; pending[id] = 0;
+    alive[id] = 1; owned[id] = 1;
     tickit_window_bind_event(W[id], TICKIT_WINDOW_ON_DESTROY, TICKIT_BIND_DESTROY, on_destroy, (void *)(long)id);
     item("w%d", id);
     dump();
@@ -297,7 +289,7 @@ static void engine_op(int argc, char **argv)
   }
   if(strcmp(op, "flush") == 0 && argc == 1) {
     tickit_window_flush(W[0]);
-    memset(pending, 0, sizeof pending);
+   
     dump();
     return;
   }
